@@ -106,8 +106,8 @@ CLAIMED["C04"] = dict(
     design_ref="DESIGN.md §7 C04")
 CLAIMED["C07"] = dict(
     text="Proof (Lean 4): kernel_append, write_partition_store (two calls = one call, every field and byte), file_bytes_fn / file_bytes_partition (closed bytes are a function of "
-         "open parameters, concatenated samples and PEAK state only; header updates and call variants do not matter) for RAW/AU/WAV, with the proved counter-example for "
-         "PEAK-carrying WAV float/double; " + _WR + "The clock is pinned by the harness. Partial: block encoders are covered by (B).",
+         "open parameters, concatenated samples and PEAK state only; header updates and call variants do not matter) for RAW/AU/WAV, and since the repairs of KF-C18-DOUBLE-NARROW / KF-C18-STAGING-MISALIGN also for "
+         "PEAK-carrying WAV float/double with finite samples (file_bytes_partition_finite); " + _WR + "The clock is pinned by the harness. Partial: block encoders are covered by (B).",
     technique="Lean 4 theorems over a hand-written handle model + differential correspondence + byte comparison of partitions on the implementation",
     design_ref="DESIGN.md §7 C07")
 CLAIMED["C11"] = dict(
@@ -166,14 +166,16 @@ CLAIMED["C15"] = dict(
     design_ref="DESIGN.md §7 C15")
 
 CLAIMED["C18"] = dict(
-    text="Proof (Lean 4) over SfModel.Handle's PEAK bookkeeping (float32/double64_peak_update bug for bug: strict < within a call, strict > across calls, "
-         "`float fmaxval`, one update per staging-buffer chunk) iterated by Sf.Peak.run: peak_is_max_first — for every FLOAT/DOUBLE file, channel count and sequence of "
-         "calls outside two defect classes the stored (value, position) per channel is (max |x|, first frame attaining it); peak_partition_independent; the full "
-         "statements are refuted with witnesses confirmed on the real library (KF-C18-DOUBLE-NARROW: running maximum kept in a C float; KF-C18-STAGING-MISALIGN: per-chunk "
-         "update restarts channel counting). CALC: the scan returns the true maximum for any buffering (calc_scan_is_max, calc_scan_buffering), the read loop and the "
-         "seek back preserve file, flags and position (calc_loop_keeps_file, calc_seek_back). Partial: the assembled stepCalc restore theorem and the per-channel scan theorem "
-         "are not proved (covered by correspondence); PEAK chunk (de)serialisation for AIFF/CAF is modelled and tied by correspondence only. Sampled correspondence: PEAK containers x "
-         "float/double x 1-6 channels x shapes x caller types x partitions against sfmodel c18 peak and exact maxima; CALC on every writable format.",
+    text="Proof (Lean 4) over SfModel.Handle's PEAK bookkeeping (float32/double64_peak_update as repaired: running maximum in the sample's own type, strict < within a call, "
+         "strict > across calls, one update per staging buffer of WHOLE frames) iterated by Sf.Peak.run: peak_is_max_first — for every FLOAT/DOUBLE file, channel count and sequence of "
+         "well-formed calls (any caller types, sizes, splits) the stored (value, position) per channel is (max |x|, first frame attaining it), as exact rational and as bit pattern; "
+         "peak_partition_independent (list equality of PEAK states); the rules before the repairs are kept and refuted (peak_is_max_first_old_rule_fails, staging_misaligned_old_rule, "
+         "peak_partition_old_rule_fails); chunk_roundtrip_wav/aiff (chunk bytes parse back to binary32 value and position). CALC: calc_scan_is_max / calc_scan_all_is_max (true maximum, "
+         "per channel, for any buffering), calc_restores_state (read position, all conversion settings, frame count and file bytes unchanged, no error, any read-only handle state). "
+         "Four defects found; three repaired by fix: commits (double fmaxval, whole-frame staging buffers, CALC rewind on read/write handles) plus the shared IEEE-writer repair; one remains a "
+         "known finding (PEAK maxima that are binary32 subnormals are written as 0). Partial: CAF chunk round trip and RDWR-mode restore are covered by correspondence only. "
+         "Sampled correspondence: PEAK containers x float/double x 1-6 channels x shapes x caller types x partitions (every converting writer with unaligned channel counts in every run) "
+         "against sfmodel c18 peak and exact maxima; CALC on every writable format, PAF24/SDS read/write handles in every run.",
     technique="Lean 4 theorems over a hand-written model + sampled correspondence (sfmodel c18 vs sfh under ASan) + property predicate on the implementation transcript with exact bit-pattern arithmetic",
     design_ref="DESIGN.md §7 C18")
 
